@@ -52,6 +52,10 @@ def strategy(tier):
         else:
             spec = draw(S.qp_convex_spec(max_n=6 if tier == "quick" else 8, max_m=4))
             spec["family"] = "qp"
+            # NOT magnified: translating the QP by 1e3..1e6 puts bounds, right-hand sides and the linear
+            # term six orders of magnitude above the curvature -- outside "moderately conditioned data".
+            # (Tried: from a start 1e6 away every configuration, defaults included, is still iterating
+            # after 5000 steps; that is not a statement C03 makes.)
         start = draw(S.start_point(spec))
         cfg = draw(st.sampled_from(CONFIGS))
         return {"spec": spec, "start": start, "params": dict(cfg), "scaling": {"kind": "none"}, "iteration_limit": BUDGET_ITERS}
